@@ -10,7 +10,7 @@
    the kinds of the names and the freshness of the rename targets are what makes each call
    well-formed — or harmless — in EVERY state in which it can start.  Because a directory rename
    consumes its target, the invariant depends on which renames are still to come: the transfer is
-   redone here with that ghost (conc_step_TI), re-using cc_sem_P for every section but Rename's. *)
+   redone here with that ghost (conc_step_J), re-using cc_sem_P for every section but Rename's. *)
 From Coq Require Import String Sorting.Permutation.
 From AF Require Import Lib.Bytes Lib.Path Lib.Ops Gen.Consts Model.MemFile Model.MemFs Model.WfOps Model.Conc Model.ConcClass
   Proofs.BytesLemmas Proofs.MemFsPath Proofs.MemFsWF Proofs.MemBelow Proofs.MemFsStep Proofs.MemFsRename Proofs.MemFsBelow
